@@ -525,3 +525,328 @@ Proof.
     unfold read_any_clamped in E. rewrite E in H. exact H.
   - unfold skip_limit. lia.
 Qed.
+
+(* ------------------------------------------------------------------ Thrift message envelope *)
+
+Ltac gt_case := match goal with |- context [?a >? ?b] => destruct (Z.gtb_spec a b) end.
+
+Theorem envelope_safe bs s : inv bs s -> safe bs (envelope bs s).
+Proof.
+  intros Hs. unfold envelope.
+  gt_case; [exact Hs|].
+  apply get_wp; [assumption | lia | lia |]. intros vu s1 E1. cbv zeta.
+  destruct (to_s 32 vu >? 0); [cbn [safe]; fin|].
+  destruct (negb _); [cbn [safe]; fin|].
+  gt_case; [cbn [safe]; fin|].
+  apply get_wp; [fin | lia | fin |]. intros lu s2 E2.
+  destruct (Z.ltb_spec (to_s 32 lu) 0); cbn [orb]; [cbn [safe]; fin|].
+  gt_case; [cbn [safe]; fin|].
+  gt_case; [cbn [safe]; fin|].
+  apply get_wp; [fin | lia | fin |]. intros sq s3 E3.
+  gt_case; [cbn [safe]; fin|].
+  apply get_wp; [fin | lia | fin |]. intros ft s4 E4.
+  destruct (negb _); [cbn [safe]; fin|].
+  destruct (ft =? 0); [cbn [safe]; fin|].
+  gt_case; [cbn [safe]; fin|].
+  apply get_wp; [fin | lia | fin |]. intros fid s5 E5.
+  gt_case; cbn [safe]; fin.
+Qed.
+
+Theorem unwrap_safe bs : safe bs (unwrap_m bs).
+Proof. apply envelope_safe, inv_st0. Qed.
+
+(* ------------------------------------------------------------------ protobuf wire: varint *)
+
+Lemma vloop_eq bs k i sh acc s :
+  vloop bs k i sh acc s =
+  if zlen bs - cur s <=? i then VErr (-1) s else
+  match fetch bs 1 (cur s + i) 0 s with
+  | None => VOver (cur s + i)
+  | Some (y, s') =>
+    match k with
+    | O => if y <? 2 then VOk (acc + y * 2 ^ sh) (i + 1) s' else VErr (-3) s'
+    | S k' => if y <? 128 then VOk (acc + y * 2 ^ sh) (i + 1) s'
+              else vloop bs k' (i + 1) (sh + 7) (acc + (y - 128) * 2 ^ sh) s'
+    end
+  end.
+Proof. destruct k; reflexivity. Qed.
+
+Lemma skipn_nth_cons {A} (l : list A) : forall n y, nth_error l n = Some y -> skipn n l = y :: skipn (S n) l.
+Proof.
+  induction l as [|x l IH]; intros n y H; destruct n; cbn in H; try discriminate.
+  - inversion H; reflexivity.
+  - cbn [skipn]. rewrite (IH n y H). reflexivity.
+Qed.
+
+(* the cursor machine never over-reads, leaves the state alone (except for the trace), and computes
+   exactly what the reference decoder computes on the suffix at the cursor *)
+Definition vpost (bs : list Z) (s : st) (i : Z) (k : nat) (ref : Z * Z) (r : vres) : Prop :=
+  match r with
+  | VOk v n s' => same bs s s' /\ i + 1 <= n <= i + Z.of_nat k + 1 /\ cur s + n <= zlen bs /\ ref = (v, n)
+  | VErr c s' => same bs s s' /\ (c = -1 \/ c = -3) /\ snd ref = c
+  | VOver _ => False
+  end.
+
+Lemma vloop_post bs : forall k i sh acc s, inv bs s -> 0 <= i ->
+  vpost bs s i k (vdec k sh acc i (skipn (Z.to_nat (cur s + i)) bs)) (vloop bs k i sh acc s).
+Proof.
+  induction k as [|k IH]; intros i sh acc s Hs Hi; rewrite vloop_eq;
+    (destruct (Z.leb_spec (zlen bs - cur s) i) as [Hr|Hr];
+     [ rewrite skipn_all2 by (unfold zlen, inv in *; lia);
+       cbn [vdec vpost snd]; (split; [apply same_refl; assumption | auto])
+     | destruct (fetch1_value bs (cur s + i) s Hs) as (y & s1 & Hf & E1 & Hn); [unfold inv in Hs; lia|];
+       rewrite Hf, (skipn_nth_cons bs _ y Hn); cbn [vdec] ]).
+  - destruct (y <? 2); cbn [vpost snd]; (split; [assumption|]); [|auto]. repeat split; lia.
+  - destruct (y <? 128); cbn [vpost snd]; [split; [assumption|]; repeat split; lia|].
+    assert (Hs1 : inv bs s1) by (unfold same in E1; tauto).
+    assert (Hc1 : cur s1 = cur s) by (unfold same in E1; tauto).
+    pose proof (IH (i + 1) (sh + 7) (acc + (y - 128) * 2 ^ sh) s1 Hs1 ltac:(lia)) as H.
+    replace (Z.to_nat (cur s1 + (i + 1))) with (S (Z.to_nat (cur s + i))) in H by (unfold inv in Hs; lia).
+    destruct (vloop bs k (i + 1) (sh + 7) (acc + (y - 128) * 2 ^ sh) s1); unfold vpost in *.
+    + destruct H as (Hsame & Hn1 & Hn2 & Hr1). split; [fin|]. repeat split; try lia. exact Hr1.
+    + destruct H as (Hsame & Hc & Hr1). split; [fin|]. split; assumption.
+    + contradiction.
+Qed.
+
+Theorem cvarint_post bs s : inv bs s ->
+  vpost bs s 0 9 (varint_dec (skipn (Z.to_nat (cur s)) bs)) (cvarint bs s).
+Proof.
+  intros Hs. pose proof (vloop_post bs 9 0 0 0 s Hs ltac:(lia)) as H.
+  rewrite Z.add_0_r in H. exact H.
+Qed.
+
+Lemma rvarint_wp bs (P : out -> Prop) s k :
+  inv bs s ->
+  (forall e s', same bs s s' -> P (Er e s')) ->
+  (forall v n s', same bs s s' -> 1 <= n <= 10 -> cur s + n <= zlen bs -> P (k v (adv n s'))) ->
+  P (rvarint bs s k).
+Proof.
+  intros Hs He Hk. unfold rvarint. pose proof (cvarint_post bs s Hs) as H.
+  destruct (cvarint bs s) as [v n s'|c s'|j]; unfold vpost in H.
+  - destruct H as (Hsame & Hn & Hb & _).
+    destruct (Z.gtb_spec (cur s' + n) (zlen bs)); [apply He; assumption|].
+    apply Hk; [assumption | lia | assumption].
+  - apply He. tauto.
+  - contradiction.
+Qed.
+
+(* ------------------------------------------------------------------ protobuf wire: tag, skip, loops *)
+
+(* final state in bounds, cursor not moved back, nothing allocated *)
+Definition ppost (bs : list Z) (adv_min : Z) (s : st) (o : out) : Prop :=
+  match o with
+  | Ok s' => inv bs s' /\ cur s + adv_min <= cur s' /\ cost s' = cost s /\ deep s' = deep s
+  | Er _ s' | Panic s' => inv bs s' /\ cur s <= cur s' /\ cost s' = cost s /\ deep s' = deep s
+  | OverRead _ => False
+  | OutOfFuel => False
+  end.
+
+Ltac pfin := cbn [seq_out]; unfold ppost in *; fin.
+
+Lemma rvarint_ok_post bs s : inv bs s -> ppost bs 1 s (rvarint bs s (fun _ s => Ok s)).
+Proof. intros Hs. apply rvarint_wp; [assumption | intros; pfin | intros; pfin]. Qed.
+
+Lemma ptag_wp bs (P : out -> Prop) s k :
+  inv bs s ->
+  (forall e s', inv bs s' -> cur s <= cur s' -> cost s' = cost s -> deep s' = deep s -> P (Er e s')) ->
+  (forall num wt s', inv bs s' -> cur s + 1 <= cur s' -> cost s' = cost s -> deep s' = deep s -> P (k num wt s')) ->
+  P (ptag bs s k).
+Proof.
+  intros Hs He Hk. unfold ptag. apply rvarint_wp; [assumption | intros; apply He; fin |].
+  intros v n s' E1 Hn Hb.
+  destruct (v / 8 >? 2147483647); [apply He; fin|].
+  destruct (v / 8 <? 1); [apply He; fin|].
+  apply Hk; fin.
+Qed.
+
+Lemma to_s64_spec x :
+  exists q, to_s 64 x = x - 18446744073709551616 * q /\
+            -9223372036854775808 <= to_s 64 x < 9223372036854775808.
+Proof.
+  unfold to_s. change (2 ^ (64 - 1)) with 9223372036854775808. change (2 ^ 64) with 18446744073709551616.
+  exists ((x + 9223372036854775808) / 18446744073709551616). Z.div_mod_to_equations. lia.
+Qed.
+
+Lemma pskip_post bs coded wt s : inv bs s -> ppost bs 0 s (pskip bs coded wt s).
+Proof.
+  intros Hs. unfold pskip.
+  destruct (wt =? 0); [apply rvarint_wp; [assumption | intros; pfin | intros; pfin]|].
+  destruct (wt =? 5); [apply skipn_wp; intros; pfin|].
+  destruct (wt =? 1); [apply skipn_wp; intros; pfin|].
+  destruct (wt =? 2); [|pfin].
+  pose proof (cvarint_post bs s Hs) as H.
+  destruct (cvarint bs s) as [v n s1|c s1|j]; unfold vpost in H; [|pfin|contradiction].
+  destruct H as (E1 & Hn & Hb & _).
+  destruct coded; cbv zeta.
+  - destruct (to_s64_spec (to_s 64 v + n)) as (q1 & Hq1 & Hr1).
+    set (all := to_s 64 (to_s 64 v + n)) in *. clearbody all.
+    destruct (Z.leb_spec all 0); [pfin|].
+    destruct (to_s64_spec (cur s1 + all)) as (q2 & Hq2 & Hr2).
+    set (d := to_s 64 (cur s1 + all)) in *. clearbody d.
+    destruct (Z.gtb_spec d (zlen bs)); [pfin|].
+    destruct (Z.ltb_spec d (cur s1)); [pfin|].
+    assert (q2 = 0) by (unfold same, inv in E1; lia). pfin.
+  - destruct (Z.ltb_spec v 0); cbn [orb]; [pfin|].
+    destruct (Z.gtb_spec v (zlen bs - cur s1 - n)); pfin.
+Qed.
+
+(* the loops: final state in bounds, cursor monotone, fuel exhaustion only below the measure
+   ([spin] = the loop may legitimately fail to make progress) *)
+Definition lpost (bs : list Z) (spin : bool) (f : nat) (s : st) (o : out) : Prop :=
+  match o with
+  | Ok s' | Er _ s' | Panic s' => inv bs s' /\ cur s <= cur s'
+  | OverRead _ => False
+  | OutOfFuel => spin = true \/ Z.of_nat f < zlen bs - cur s + 1
+  end.
+
+Ltac lfin :=
+  cbn [seq_out]; unfold lpost, ppost in *; fin;
+  try (match goal with H : _ = true \/ _ |- _ => destruct H end; [left; assumption | right; lia]);
+  try (right; lia).
+
+Lemma pfields_post bs coded : forall f s, inv bs s -> lpost bs false f s (pfields bs coded f s).
+Proof.
+  induction f as [|f IH]; intros s Hs; cbn [pfields]; [lfin|].
+  destruct (Z.geb_spec (cur s) (zlen bs)); [lfin|].
+  apply ptag_wp; [assumption | intros; lfin |]. intros num wt s1 Hs1 Hc1 Hk1 Hd1.
+  pose proof (pskip_post bs coded wt s1 Hs1) as Hp.
+  destruct (pskip bs coded wt s1) as [s2| | | |]; cbn [seq_out]; try solve [lfin].
+  assert (Hs2 : inv bs s2) by (unfold ppost in Hp; tauto).
+  pose proof (IH s2 Hs2) as Hr.
+  destruct (pfields bs coded f s2); lfin.
+Qed.
+
+Lemma ploop_post bs ign stop : forall f s, inv bs s -> lpost bs ign f s (ploop bs ign f stop s).
+Proof.
+  induction f as [|f IH]; intros s Hs; cbn [ploop]; [lfin|].
+  destruct (Z.geb_spec (cur s) stop); [lfin|].
+  pose proof (rvarint_ok_post bs s Hs) as Hp.
+  destruct (rvarint bs s (fun _ s0 => Ok s0)) as [s1|e s1| | |]; try solve [lfin].
+  - assert (Hs1 : inv bs s1) by (unfold ppost in Hp; tauto).
+    pose proof (IH s1 Hs1) as Hr. destruct (ploop bs ign f stop s1); lfin.
+  - destruct ign; [|lfin].
+    pose proof (IH s Hs) as Hr. destruct (ploop bs true f stop s); lfin.
+Qed.
+
+Lemma ppacked_post bs ign f s : inv bs s -> lpost bs ign f s (ppacked bs ign f s).
+Proof.
+  intros Hs. unfold ppacked. apply rvarint_wp; [assumption | intros; lfin |].
+  intros len n s1 E1 Hn Hb.
+  assert (Hs1 : inv bs (adv n s1)) by fin.
+  pose proof (ploop_post bs ign (cur (adv n s1) + to_s 64 len) f (adv n s1) Hs1) as Hr.
+  destruct (ploop bs ign f (cur (adv n s1) + to_s 64 len) (adv n s1)); lfin.
+Qed.
+
+Theorem pskip_safe bs coded wt s : inv bs s -> safe bs (pskip bs coded wt s).
+Proof.
+  intros Hs. pose proof (pskip_post bs coded wt s Hs) as H.
+  destruct (pskip bs coded wt s); unfold ppost in H; cbn [safe]; tauto.
+Qed.
+
+Theorem pfields_safe bs coded f s : inv bs s -> safe bs (pfields bs coded f s).
+Proof.
+  intros Hs. pose proof (pfields_post bs coded f s Hs) as H.
+  destruct (pfields bs coded f s); unfold lpost in H; cbn [safe]; tauto.
+Qed.
+
+Theorem ppacked_safe bs ign f s : inv bs s -> safe bs (ppacked bs ign f s).
+Proof.
+  intros Hs. pose proof (ppacked_post bs ign f s Hs) as H.
+  destruct (ppacked bs ign f s); unfold lpost in H; cbn [safe]; tauto.
+Qed.
+
+Theorem cvarint_safe bs s : inv bs s ->
+  match cvarint bs s with
+  | VOk _ n s' => inv bs s' /\ cur s' = cur s /\ cost s' = cost s /\ 1 <= n <= 10 /\ cur s + n <= zlen bs
+  | VErr c s' => inv bs s' /\ cur s' = cur s /\ cost s' = cost s /\ (c = -1 \/ c = -3)
+  | VOver _ => False
+  end.
+Proof.
+  intros Hs. pose proof (cvarint_post bs s Hs) as H.
+  destruct (cvarint bs s) as [v n s'|c s'|j]; unfold vpost, same in H; [| |exact H].
+  - destruct H as ((Hc & Hk & Hd & Hi) & Hn & Hb & _).
+    refine (conj Hi (conj Hc (conj Hk _))). lia.
+  - destruct H as ((Hc & Hk & Hd & Hi) & Hn & _).
+    exact (conj Hi (conj Hc (conj Hk Hn))).
+Qed.
+
+Theorem cvarint_ref bs s : inv bs s ->
+  match cvarint bs s with
+  | VOk v n s' => cur s' = cur s /\ cost s' = cost s /\ varint_dec (skipn (Z.to_nat (cur s)) bs) = (v, n)
+  | VErr c s' => cur s' = cur s /\ cost s' = cost s /\ snd (varint_dec (skipn (Z.to_nat (cur s)) bs)) = c
+  | VOver _ => False
+  end.
+Proof.
+  intros Hs. pose proof (cvarint_post bs s Hs) as H.
+  destruct (cvarint bs s) as [v n s'|c s'|j]; unfold vpost, same in H; [| |exact H].
+  - destruct H as ((Hc & Hk & Hd & Hi) & Hn & Hb & Hr). exact (conj Hc (conj Hk Hr)).
+  - destruct H as ((Hc & Hk & Hd & Hi) & Hn & Hr). exact (conj Hc (conj Hk Hr)).
+Qed.
+
+Theorem pfields_progress bs coded : pfields_m coded bs <> OutOfFuel.
+Proof.
+  intros E. pose proof (pfields_post bs coded (fuel_for bs) st0 (inv_st0 bs)) as H.
+  unfold pfields_m in E. rewrite E in H. unfold lpost in H. rewrite fuel_for_val in H.
+  unfold st0, skip_limit in H; cbn [cur] in H. destruct H as [H|H]; [discriminate | lia].
+Qed.
+
+Theorem ppacked_progress bs : ppacked_m false bs <> OutOfFuel.
+Proof.
+  intros E. pose proof (ppacked_post bs false (fuel_for bs) st0 (inv_st0 bs)) as H.
+  unfold ppacked_m in E. rewrite E in H. unfold lpost in H. rewrite fuel_for_val in H.
+  unfold st0, skip_limit in H; cbn [cur] in H. destruct H as [H|H]; [discriminate | lia].
+Qed.
+
+(* as coded in conv/p2j (element error dropped, cursor unchanged): a truncated element inside the
+   declared length is a fixed point of the loop *)
+Theorem ppacked_as_coded_spins :
+  exists bs, (length bs <= 4)%nat /\ forall fuel, ppacked bs true fuel st0 = OutOfFuel.
+Proof.
+  exists [3; 128; 128; 128]. split; [cbn; lia|].
+  assert (Hloop : forall fuel, ploop [3; 128; 128; 128] true fuel 4 (mkst 1 0 0 [0]) = OutOfFuel).
+  { induction fuel as [|f IH]; [reflexivity|].
+    cbn [ploop].
+    replace (rvarint [3; 128; 128; 128] (mkst 1 0 0 [0]) (fun _ s0 => Ok s0))
+      with (Er E_VARINT (mkst 1 0 0 [3; 2; 1; 0])) by (vm_compute; reflexivity).
+    change (cur (mkst 1 0 0 [0]) >=? 4) with false. cbv iota. exact IH. }
+  intros fuel.
+  replace (ppacked [3; 128; 128; 128] true fuel st0)
+    with (ploop [3; 128; 128; 128] true fuel 4 (mkst 1 0 0 [0])); [apply Hloop|].
+  unfold ppacked, rvarint.
+  replace (cvarint [3; 128; 128; 128] st0) with (VOk 3 1 (mkst 0 0 0 [0])) by (vm_compute; reflexivity).
+  cbv iota beta. reflexivity.
+Qed.
+
+Theorem pskip_as_coded_panics :
+  exists bs, (length bs <= 11)%nat /\ exists s, pskip_m true 2 bs = Panic s.
+Proof.
+  exists [246; 255; 255; 255; 255; 255; 255; 255; 255; 1]. split; [cbn; lia|].
+  eexists. vm_compute. reflexivity.
+Qed.
+
+Theorem pskip_fixed_never_panics bs wt s s' : pskip bs false wt s <> Panic s'.
+Proof.
+  unfold pskip, rvarint, skipn_m.
+  destruct (wt =? 0).
+  { destruct (cvarint bs s); [|discriminate|discriminate]. destruct (_ >? _); discriminate. }
+  destruct (wt =? 5); [destruct (_ >? _); discriminate|].
+  destruct (wt =? 1); [destruct (_ >? _); discriminate|].
+  destruct (wt =? 2); [|discriminate].
+  destruct (cvarint bs s); [|discriminate|discriminate].
+  destruct (_ || _); discriminate.
+Qed.
+
+Theorem alloc_as_coded_refuted : exists bs, (length bs <= 6)%nat /\ cost_as_coded bs >= 2 ^ 31.
+Proof. exists [10; 127; 255; 255; 255]. split; [cbn; lia|]. vm_compute. discriminate. Qed.
+
+(* ------------------------------------------------------------------ (G) the generated ConsumeVarint *)
+
+Theorem ConsumeVarint_total bs : bytes_ok bs ->
+  let '(v, n) := Gen_protowire.ConsumeVarint bs in
+  (1 <= n <= 10 /\ n <= zlen bs /\ 0 <= v < 2 ^ 64) \/ (n = -1 /\ v = 0) \/ (n = -3 /\ v = 0).
+Proof.
+  intros Hb. rewrite (ConsumeVarint_ref bs Hb).
+  destruct (varint_dec bs) as [v n] eqn:E.
+  pose proof (varint_dec_result bs v n E) as Hr. pose proof (varint_dec_value bs v n Hb E) as Hv.
+  unfold zlen. intuition lia.
+Qed.
